@@ -18,7 +18,7 @@ RULE = ('cases = (stabilizer state of any rank 0<=r<=N and sign pattern, subsyst
 ASSUMPTIONS = ['entropies are integers (bits); tolerance 1e-9', 'z2rank destroys its argument by documentation: only the return value is checked']
 
 
-FORMS = ['indices', 'mask', 'tuple', 'int-array', 'bool-list']
+FORMS = ['indices', 'mask', 'tuple', 'int-array', 'bool-list', 'int32-array-reversed', 'uint8-array', 'indices-reversed']
 
 
 def _ent(be, S, region, form, N):
@@ -26,8 +26,8 @@ def _ent(be, S, region, form, N):
     Bk = B.backend(be)
     form = {False: 'indices', True: 'mask'}.get(form, form)
     m = np.zeros(N, dtype=np.bool_); m[list(region)] = True
-    if len(region) == 0 and form in ('indices', 'tuple', 'int-array'):
-        arg = {'indices': [], 'tuple': (), 'int-array': np.array([], dtype=int)}[form]
+    if len(region) == 0 and form not in ('mask', 'bool-list'):
+        arg = {'indices': [], 'tuple': (), 'indices-reversed': []}.get(form, np.array([], dtype={'int32-array-reversed': np.int32, 'uint8-array': np.uint8}.get(form, np.int64)))
     elif form == 'mask':
         arg = m
     elif form == 'bool-list':
@@ -36,6 +36,12 @@ def _ent(be, S, region, form, N):
         arg = tuple(region)
     elif form == 'int-array':
         arg = np.array(list(region), dtype=np.int64)
+    elif form == 'int32-array-reversed':          # narrower index type, qubits listed in descending order
+        arg = np.array(list(region)[::-1], dtype=np.int32)
+    elif form == 'uint8-array':
+        arg = np.array(list(region), dtype=np.uint8)
+    elif form == 'indices-reversed':
+        arg = list(region)[::-1]
     else:
         arg = list(region)
     snap = B.snapshot(S)
@@ -70,7 +76,7 @@ def f_entropy(case):
         if 0 < len(region) < N and (r > 0 or exp >= 1):
             nt_sub.append(idx)
     check(full[tuple([0] * N)] == 0 and full[tuple([1] * N)] == r, 'oracle sanity', 'oracle')
-    return {'nt': True, 'nt_sub': nt_sub, 'sub_evals': 2 ** N * (5 if be == 'np' else 2), 'labels': ['N=%d' % N, 'r=%d' % r, 'maxS=%d' % max(full.values())]}
+    return {'nt': True, 'nt_sub': nt_sub, 'sub_evals': 2 ** N * (len(FORMS) if be == 'np' else 2), 'labels': ['N=%d' % N, 'r=%d' % r, 'maxS=%d' % max(full.values())]}
 
 
 def st_entropy(be, loN, hiN):
